@@ -16,7 +16,7 @@ import os
 import vcommon as V
 import tables_util as T
 
-MODEL_KINDS = {"op-interp-model", "var-model", "func-model", "stmt-model", "op-model", "var-wide-model", "func-wide-model", "stmt-wide-model"}
+MODEL_KINDS = {"coerce-model", "coerce-interp-model", "inferred-model", "inferred-interp", "op-interp-model", "var-model", "func-model", "stmt-model", "op-model", "var-wide-model", "func-wide-model", "stmt-wide-model"}
 
 
 def run(ctx):
@@ -67,6 +67,8 @@ def run(ctx):
     kinds = collections.Counter()
     if rows is None:
         ctx.obligation("Model/TablesGaps.v evaluates", False, (log or "")[-400:])
+        ctx.violation("C05: the disagreeing rows could not be computed (coqc on Model/TablesGaps.v failed or timed out)",
+                      {"no_failing_input": True, "broken": "Model/TablesGaps.v", "log": (log or "")[-800:]})
         rows, sizes = [], {}
     else:
         specs = [T.first_cell(r) for r in rows]
@@ -89,7 +91,10 @@ def run(ctx):
     # ---- evidence
     classes = {"vars": collections.Counter(), "funcs": collections.Counter(), "stmts": collections.Counter(), "ops": collections.Counter()}
     accepted = 0
-    for name, table in (("vars", obs.vars), ("funcs", obs.funcs), ("stmts", obs.stmts), ("ops", obs.ops)):
+    classes["coerce"] = collections.Counter()
+    classes["inferred"] = collections.Counter()
+    for name, table in (("vars", obs.vars), ("funcs", obs.funcs), ("stmts", obs.stmts), ("ops", obs.ops),
+                        ("coerce", obs.coerce), ("inferred", obs.inferred + obs.inferred3)):
         for r in table:
             for l, i in zip(r["lint"], r["interp"]):
                 if i is None:
@@ -102,12 +107,15 @@ def run(ctx):
         "variable type cells (name x 9 scopes)": 9 * sum(1 for r in obs.vars if r["op"] == "get"),
         "function cells (signature x 45 masks)": sum(1 for r in obs.funcs for x in r["interp"] if x is not None),
         "statement cells (kind x 45 masks)": sum(1 for r in obs.stmts for x in r["interp"] if x is not None),
-        "operator cells (23 ops x 10 types x existing value/form)": sum(1 for r in obs.ops for x in r["interp"] if x is not None),
+        "operator cells (23 ops x 10 types x existing value type / 8 forms)": sum(1 for r in obs.ops for x in r["interp"] if x is not None),
+        "coercion cells (3 contexts x 9 expected types x existing value type/form)": sum(1 for r in obs.coerce for x in r["interp"] if x is not None),
+        "inferred-scope cells (use x depth 1..3 x 36 pairs of lifecycle subs)": sum(1 for r in obs.inferred for x in r["interp"] if x is not None),
+        "inferred-scope cells (use x 84 triples, thorough)": sum(1 for r in obs.inferred3 for x in r["interp"] if x is not None),
         "wide-annotation cells (rows x %d masks of 3..9 scopes, linter only)" % len(obs.wide_masks): getattr(obs, "wide_cells", 0),
     }
     ctx.samples = [{"cell": s, "observed": T.show(s)} for s in
                    ("V,req.http.X-Verif-One,set,%d" % T.MASKS[9], "F,resp.tarpit,0,%d" % T.MASKS[16], "S,return:deliver_stale,64",
-                    "O,+=,RTIME,FLOAT,lit")]
+                    "O,+=,RTIME,FLOAT,lit", "O,=,STRING,BACKEND,plit", "C,arg,STRING,BACKEND,plit", "IV,resp.http.X-Verif-One,set,2,160")]
     ctx.coverage.update({
         "exhaustive": True,
         "evaluations": sum(cells.values()),
